@@ -20,6 +20,16 @@ thread_local! {
     static NEXT_ID: Cell<u32> = const { Cell::new(0) };
     static FLAGS: Cell<u64> = const { Cell::new(0) };
     static CLONE_PANICS: Cell<bool> = const { Cell::new(false) };
+    // calls of the payload's own Ord::cmp (+1) and PartialOrd::partial_cmp (+100):
+    // how often a handle comparison forwards to the value is part of what a
+    // program observes (std forwards unconditionally for the ordering traits)
+    static ORD_CALLS: Cell<u32> = const { Cell::new(0) };
+}
+
+fn ord_calls<R>(f: impl FnOnce() -> R) -> (R, u32) {
+    let before = ORD_CALLS.with(|c| c.get());
+    let r = f();
+    (r, ORD_CALLS.with(|c| c.get()).wrapping_sub(before))
 }
 
 fn log(s: String) {
@@ -53,7 +63,8 @@ pub const F_INC_DEC: u32 = 11;
 pub const F_OVER_ALIGNED: u32 = 12;
 pub const F_CLONE_PANIC: u32 = 13;
 pub const F_MISC_TYPES: u32 = 14;
-pub const NAMES: [&str; 15] = [
+pub const F_CMP_ALIASED: u32 = 15;
+pub const NAMES: [&str; 16] = [
     "value_with_nested_handles_destroyed",
     "weak_observed_after_death",
     "try_unwrap_ok",
@@ -69,6 +80,7 @@ pub const NAMES: [&str; 15] = [
     "over_aligned_payload",
     "make_mut_with_panicking_clone",
     "other_payload_types",
+    "ordering_of_two_handles_to_one_allocation",
 ];
 
 /// Alignment fillers of the over-aligned payload variants.
@@ -190,11 +202,13 @@ impl<F: Fam> PartialEq for Val<F> {
 impl<F: Fam> Eq for Val<F> {}
 impl<F: Fam> PartialOrd for Val<F> {
     fn partial_cmp(&self, o: &Self) -> Option<std::cmp::Ordering> {
+        ORD_CALLS.with(|c| c.set(c.get().wrapping_add(100)));
         Some(self.cmp(o))
     }
 }
 impl<F: Fam> Ord for Val<F> {
     fn cmp(&self, o: &Self) -> std::cmp::Ordering {
+        ORD_CALLS.with(|c| c.set(c.get().wrapping_add(1)));
         (self.id / 2).cmp(&(o.id / 2))
     }
 }
@@ -298,16 +312,21 @@ macro_rules! impl_fam {
             }
             #[allow(clippy::all)]
             fn cmp_all(a: &Self::R, b: &Self::R) -> String {
+                if $rc::ptr_eq(a, b) {
+                    flag(F_CMP_ALIASED);
+                }
                 format!(
-                    "eq={} ne={} lt={} le={} gt={} ge={} cmp={:?} pcmp={:?}",
+                    "eq={} ne={} lt={:?} le={:?} gt={:?} ge={:?} cmp={:?} pcmp={:?} max_is_b={:?} min_is_a={:?}",
                     a == b,
                     a != b,
-                    a < b,
-                    a <= b,
-                    a > b,
-                    a >= b,
-                    a.cmp(b),
-                    a.partial_cmp(b)
+                    ord_calls(|| a < b),
+                    ord_calls(|| a <= b),
+                    ord_calls(|| a > b),
+                    ord_calls(|| a >= b),
+                    ord_calls(|| a.cmp(b)),
+                    ord_calls(|| a.partial_cmp(b)),
+                    ord_calls(|| std::ptr::eq(a.max(b), b)),
+                    ord_calls(|| std::ptr::eq(a.min(b), a))
                 )
             }
             fn hash_r(r: &Self::R) -> u64 {
